@@ -740,14 +740,14 @@ Section UserStart2.
 End UserStart2.
 
 Lemma user_step_Inv c s ch s' l :
-  c_engine c = V1 -> Inv s -> polite s (AUser ch) -> user_step c s ch = Some (s', l) -> Inv s'.
+  c_engine c = V1 -> c_stfail c = false -> Inv s -> polite s (AUser ch) -> user_step c s ch = Some (s', l) -> Inv s'.
 Proof.
-  intros Hv HI Hpol H.
+  intros Hv Hsf HI Hpol H.
   destruct (s_user s) as [[[id k] pc]|] eqn:Hu; [|unfold user_step in H; rewrite Hu in H; discriminate].
   destruct pc as [q| |m sw|r m sw|r m sw| |r| |x].
   2-9: eapply user_step_nonstart_Inv; eauto; intros q0; discriminate.
   unfold user_step in H. rewrite Hu in H.
-  destruct q as [| |r|r|r|r|r|r|r|r|r]; simpl in H; rewrite ?Hv in H.
+  destruct q as [| |r|r|r|r|r|r|r|r|r]; simpl in H; rewrite ?Hsf in H; simpl in H; rewrite ?Hv in H.
   - (* SCheck *)
     destruct (status_eqb (s_status s) Running) eqn:Er; inversion H; subst; clear H.
     + eapply user_abort_Inv; eauto.
@@ -1272,9 +1272,9 @@ Lemma stopped_of_final x : stopped_b x = true -> x = UserStopped \/ x = SystemSt
 Proof. destruct x; simpl; try discriminate; auto. Qed.
 
 Lemma clean_step_Inv c s i ch s' l :
-  c_engine c = V1 -> Inv s -> clean_step c s i ch = Some (s', l) -> Inv s'.
+  c_engine c = V1 -> c_stfail c = false -> Inv s -> clean_step c s i ch = Some (s', l) -> Inv s'.
 Proof.
-  intros Hv HI H. unfold clean_step in H.
+  intros Hv Hsf HI H. unfold clean_step in H.
   destruct (get_run s i) as [r|] eqn:Er; [|discriminate].
   pose proof (get_run_some _ _ _ Er) as Hr. subst r.
   destruct (s_cleans s i) as [pc|] eqn:Hc; [|discriminate].
@@ -1309,7 +1309,7 @@ Proof.
     unfold clean_ok. simpl. repeat split; auto.
   - (* CStart q : the nested Start *)
     destruct Hok as (Hlt & Hpe & Hsp & Hbp).
-    destruct q as [| |r|r|r|r|r|r|r|r|r]; simpl in H; rewrite ?Hv in H; simpl in Hsp; try contradiction.
+    destruct q as [| |r|r|r|r|r|r|r|r|r]; simpl in H; rewrite ?Hsf in H; simpl in H; rewrite ?Hv in H; simpl in Hsp; try contradiction.
     + (* SCheck *)
       rewrite Hsp in H. simpl in H. inversion H; subst; clear H.
       change (Inv (set_clean (with_status s (s_status s)) i (Some (CStart SBuild)))).
@@ -1418,9 +1418,9 @@ Qed.
 (* ------------------------------------------------------------------ *)
 (* every step                                                          *)
 Theorem step_Inv c s a s' l :
-  c_engine c = V1 -> Inv s -> polite s a -> step c s a = Some (s', l) -> Inv s'.
+  c_engine c = V1 -> c_stfail c = false -> Inv s -> polite s a -> step c s a = Some (s', l) -> Inv s'.
 Proof.
-  intros Hv HI Hp H. destruct a; unfold step in H.
+  intros Hv Hsf HI Hp H. destruct a; unfold step in H.
   - eapply call_step_Inv; eauto.
   - eapply user_step_Inv; eauto.
   - eapply waiter_step_Inv; eauto.
@@ -1442,10 +1442,10 @@ Fixpoint polite_run (c : cfg) (s : st) (acts : list act) : Prop :=
   | a :: t => polite s a /\ match step c s a with Some (s', _) => polite_run c s' t | None => True end
   end.
 
-Theorem run_Inv c acts : c_engine c = V1 ->
+Theorem run_Inv c acts : c_engine c = V1 -> c_stfail c = false ->
   forall s s', Inv s -> polite_run c s acts -> run_acts c s acts = Some s' -> Inv s'.
 Proof.
-  intros Hv. induction acts as [|a t IH]; intros s s' HI Hp H; simpl in *.
+  intros Hv Hsf. induction acts as [|a t IH]; intros s s' HI Hp H; simpl in *.
   - inversion H; subst; exact HI.
   - destruct Hp as [Hpa Hpt]. destruct (step c s a) as [[s1 l]|] eqn:E; [|discriminate].
     eapply IH; [|exact Hpt|exact H]. eapply step_Inv; eauto.
@@ -1459,14 +1459,14 @@ Lemma GG_init : GG init. Proof. intros g H. discriminate. Qed.
 
 (* a Start step of v1 never touches the guard or the source state of an existing run *)
 Lemma start_step_GG c s pc ch :
-  c_engine c = V1 -> GG s ->
+  c_engine c = V1 -> c_stfail c = false -> GG s ->
   match start_step c s pc ch with
   | SNext s' _ _ | SFin s' _ _ =>
       match pc with SOpenA _ | SOpenSrc _ | SOpenDlq _ | SRollback _ => True | _ => GG s' end
   | SStuck => True
   end.
 Proof.
-  intros Hv HG. destruct pc as [| |r|r|r|r|r|r|r|r|r]; simpl; rewrite ?Hv.
+  intros Hv Hsf HG. destruct pc as [| |r|r|r|r|r|r|r|r|r]; simpl; rewrite ?Hsf; simpl; rewrite ?Hv.
   - destruct (status_eqb (s_status s) Running); exact HG.
   - destruct (s_guard s) eqn:Eg; [exact HG|].
     destruct (c_proc c && negb (onat_eqb (s_proc s) None)); [exact HG|].
@@ -1500,15 +1500,15 @@ Lemma not_v2_pc s pc n : spc_ok s pc n -> match pc with SOpenA _ | SOpenSrc _ | 
 Proof. destruct pc; simpl; auto. Qed.
 
 Lemma step_GG c s a s' l :
-  c_engine c = V1 -> Inv s -> GG s -> step c s a = Some (s', l) -> GG s'.
+  c_engine c = V1 -> c_stfail c = false -> Inv s -> GG s -> step c s a = Some (s', l) -> GG s'.
 Proof.
-  intros Hv HI HG H. destruct a; unfold step in H.
+  intros Hv Hsf HI HG H. destruct a; unfold step in H.
   - (* call *) unfold call_step in H. split_hyp H; try discriminate; inversion H; subst; clear H;
       (eapply GG_ext; [| | |exact HG]; reflexivity).
   - (* user *)
     unfold user_step in H. destruct (s_user s) as [[[id k] pc]|] eqn:Hu; [|discriminate].
     destruct pc as [q| |m sw|r m sw|r m sw| |r| |x].
-    + pose proof (start_step_GG c s q choice Hv HG) as HS.
+    + pose proof (start_step_GG c s q choice Hv Hsf HG) as HS.
       pose proof (not_v2_pc s q false (i_user s HI q ltac:(unfold user_start; rewrite Hu; reflexivity))) as Hq.
       destruct (start_step c s q choice) as [s1 pc1 l1|s1 x1 l1|]; [| |discriminate];
         inversion H; subst; clear H; (eapply GG_ext; [| | |destruct q; try contradiction; exact HS]; reflexivity).
@@ -1532,7 +1532,7 @@ Proof.
     apply get_run_some in Er. subst x.
     destruct (s_cleans s r) as [pc|] eqn:Hc; [|discriminate].
     destruct pc as [| | |q| |e|e|e].
-    4:{ pose proof (start_step_GG c s q choice Hv HG) as HS.
+    4:{ pose proof (start_step_GG c s q choice Hv Hsf HG) as HS.
         pose proof (i_clean s HI r _ Hc) as (_ & _ & Hsp & _).
         pose proof (not_v2_pc s q true Hsp) as Hq.
         destruct (start_step c s q choice) as [s1 pc1 l1|s1 x1 l1|]; [| |discriminate].
@@ -1602,10 +1602,10 @@ Proof.
     apply GG_upd_same; [exact HG|reflexivity].
 Qed.
 
-Theorem run_Inv_GG c acts : c_engine c = V1 ->
+Theorem run_Inv_GG c acts : c_engine c = V1 -> c_stfail c = false ->
   forall s s', Inv s -> GG s -> polite_run c s acts -> run_acts c s acts = Some s' -> Inv s' /\ GG s'.
 Proof.
-  intros Hv. induction acts as [|a t IH]; intros s s' HI HG Hp H; simpl in *.
+  intros Hv Hsf. induction acts as [|a t IH]; intros s s' HI HG Hp H; simpl in *.
   - inversion H; subst; auto.
   - destruct Hp as [Hpa Hpt]. destruct (step c s a) as [[s1 l]|] eqn:E; [|discriminate].
     eapply IH; [| |exact Hpt|exact H].
